@@ -1031,7 +1031,10 @@ func (fc *funcContext) translateBuiltin(name string, sig *types.Signature, args 
 			return fc.formatExpr("$appendSlice(%s, %s)", argStr[0], argStr[1])
 		}
 		sliceType := sig.Results().At(0).Type().Underlying().(*types.Slice)
-		return fc.formatExpr("$append(%e, %s)", args[0], strings.Join(fc.translateExprSlice(args[1:], sliceType.Elem()), ", "))
+		// Translate the slice operand before the appended values, so that blocking calls inside the operands
+		// are hoisted (and therefore executed) in lexical order.
+		slice := fc.translateExpr(args[0])
+		return fc.formatExpr("$append(%s, %s)", slice, strings.Join(fc.translateExprSlice(args[1:], sliceType.Elem()), ", "))
 	case "delete":
 		args = fc.expandTupleArgs(args)
 		keyType := fc.typeOf(args[0]).Underlying().(*types.Map).Key()
